@@ -1377,12 +1377,59 @@ func constTerm(c *ssa.Const) *Term {
 
 var boolEnumCache sync.Map
 
+// enumUsedAsNumber: named integer types whose values index something, are compared by order, take part in arithmetic or
+// are converted - such a type is a number, not a bool under another name, whatever the count of its constants.
+var enumUsedAsNumber sync.Map
+
+// ScanEnumUses records the named integer types of the program that are used as numbers (see IsBoolEnum); called once
+// after the program is built, before any analysis.
+func ScanEnumUses(prog *ssa.Program) {
+	deny := func(t types.Type) {
+		if nt, ok := t.(*types.Named); ok {
+			if b, isB := nt.Underlying().(*types.Basic); isB && b.Info()&types.IsInteger != 0 {
+				enumUsedAsNumber.Store(nt.Origin(), true)
+			}
+		}
+	}
+	for _, fn := range progFuncs(prog) {
+		for _, b := range fn.Blocks {
+			for _, in := range b.Instrs {
+				switch in := in.(type) {
+				case *ssa.IndexAddr:
+					deny(in.Index.Type())
+				case *ssa.Index:
+					deny(in.Index.Type())
+				case *ssa.Lookup:
+					deny(in.Index.Type())
+				case *ssa.MapUpdate:
+					deny(in.Key.Type())
+				case *ssa.Convert:
+					deny(in.X.Type())
+					deny(in.Type())
+				case *ssa.BinOp:
+					if in.Op != token.EQL && in.Op != token.NEQ {
+						deny(in.X.Type())
+						deny(in.Y.Type())
+					}
+				case *ssa.UnOp:
+					if in.Op == token.SUB || in.Op == token.XOR {
+						deny(in.X.Type())
+					}
+				}
+			}
+		}
+	}
+}
+
 // IsBoolEnum: t is an unexported named type with an integer underlying type for which its package declares
 // exactly two constants, 0 and 1 - a bool written as an enum (`type recovery uint8; const (abort recovery = iota;
 // resume)`).
 func IsBoolEnum(t types.Type) bool {
 	nt, ok := t.(*types.Named)
 	if !ok || nt.Obj() == nil || nt.Obj().Pkg() == nil || nt.Obj().Exported() {
+		return false
+	}
+	if _, denied := enumUsedAsNumber.Load(nt.Origin()); denied {
 		return false
 	}
 	if v, hit := boolEnumCache.Load(nt); hit {
